@@ -13,4 +13,6 @@ CASES = [
     dict(expect="fire", desc="seed C23/2: is_stopped tested outside the lock", names="B3-subscribe-branches", edits=[dict(file="reactivex/subject/asyncsubject.py",
          old="        with self.lock:\n            self.check_disposed()\n            if not self.is_stopped:\n                self.observers.append(observer)\n                return InnerSubscription(self, observer)\n\n            ex = self.exception",
          new="        self.check_disposed()\n        if not self.is_stopped:\n            with self.lock:\n                self.observers.append(observer)\n            return InnerSubscription(self, observer)\n\n        with self.lock:\n            ex = self.exception")]),
+    dict(expect="fire", desc="seed C23-r4/3: the late-subscriber branch re-reads self.exception instead of its locked snapshot", names="B3-subscribe-branches", edits=[dict(file="reactivex/subject/asyncsubject.py",
+         old="        if ex is not None:", new="        if self.exception is not None:")]),
 ]
